@@ -497,6 +497,18 @@ def oracle_c03(an):
                 if first['wire_len'] > F and not first.get('follows'):
                     V('unsplit_oversize', 'single frame of %d bytes on the wire, limit %d' % (first['wire_len'], F),
                       u['seqs'][0], excess=first['wire_len'] - F, frag_has_metadata=bool(first['metadata']), **facts)
+    # a fragment sequence must end: a last-written fragment that still says 'follows' with nothing
+    # after it (at quiescence) leaves the receiver waiting forever
+    if an.fault_free and an.world.incomplete is None:
+        for (ep, sid), u in open_units.items():
+            last_seq = u['seqs'][-1]
+            later = [e for e in an.by_kind['wire'] if e['seq'] > last_seq and sender_of(e['dir']) == ep]
+            settled = an.settled_seq
+            if last_seq < settled and (an.stopped or an.world.stats.get('stop_reason') == 'quiet'):
+                fr = u['frames']
+                V('fragment_sequence_unterminated', 'stream %d: %d fragment(s) written, the last still flagged follows, nothing after it'
+                  % (sid, len(fr)), last_seq, ep=ep, type=fr[0]['type'], fragsize=plan.get(ep, {}).get('fragment'),
+                  has_metadata=any(f['metadata'] for f in fr), has_data=any(f['data'] for f in fr))
     # reassembly on the peer equals the queued source (type, n, complete, content)
     for ep in ('client', 'server'):
         peer = other(ep)
